@@ -206,6 +206,8 @@ func oracle(c *octx) *eng.Violation {
 		return c.cancelRules()
 	case "C19":
 		return first(c.mainEq("behaviour", projFull, false), c.lanesEq("item-behaviour", projFull, false), c.slots("slot"), c.inFlight("concurrency"))
+	case "C20":
+		return c.waits()
 	case "C17":
 		return first(c.mainEq("payload", projC17, false), c.lanesEq("item-payload", projC17, false), c.slots("slot"))
 	case "C18":
@@ -534,6 +536,130 @@ func (c *octx) cancelRules() *eng.Violation {
 			}
 			if e.S3 != "matches-ctx" {
 				return c.viol("cut-short-wrong-error", "the run was cut short by the cancellation but its error %q does not match the context's error", e.S2)
+			}
+		}
+	}
+	return nil
+}
+
+// ---- retry wait (C20) -----------------------------------------------------------
+
+// waits: at least w between a failed attempt and the next, none before the
+// first attempt nor after the last, per node visit and per batch item.
+func (c *octx) waits() *eng.Violation {
+	for i := range c.mod.Runs {
+		or := c.obs.Runs[i]
+		check := func(lane []simrt.Event, where string, w int64) *eng.Violation {
+			for k := 1; k < len(lane); k++ {
+				prev, cur := lane[k-1], lane[k]
+				gap := cur.T - prev.T
+				switch {
+				case cur.Kind == "exec_start" && cur.A > 1 && prev.Kind == "exec_end" && prev.N == cur.N:
+					if gap < w {
+						return c.viol("wait-too-short", "%s: attempt %d started %dus after attempt %d ended; the configured wait is %dus", where, cur.A, gap/1000, prev.A, w/1000)
+					}
+				case cur.Kind == "exec_start" && cur.A == 1 && prev.Kind == "prep_end" && prev.N == cur.N:
+					if gap != 0 {
+						return c.viol("wait-before-first-attempt", "%s: the first attempt started %dus after prep ended", where, gap/1000)
+					}
+				case (cur.Kind == "post_start" || cur.Kind == "fb_start") && (prev.Kind == "exec_end" || prev.Kind == "fb_end") && prev.N == cur.N && cur.I == prev.I:
+					if gap != 0 {
+						return c.viol("wait-after-last-attempt", "%s: %s started %dus after the last attempt ended", where, cur.Kind, gap/1000)
+					}
+				}
+			}
+			return nil
+		}
+		// main lane, node by node
+		for _, n := range c.sc.Nodes {
+			if n.Kind == "flow" {
+				continue
+			}
+			w := int64(n.config().WaitMs) * 1e6
+			if !n.retryable() {
+				w = 0
+			}
+			var lane []simrt.Event
+			for _, e := range or.Main {
+				if e.N == n.ID {
+					lane = append(lane, e)
+				}
+			}
+			if n.Kind != "batch" {
+				if v := check(lane, fmt.Sprintf("node %d", n.ID), w); v != nil {
+					return v
+				}
+			}
+			for k, evs := range or.Lanes {
+				if k.N == n.ID {
+					if v := check(evs, fmt.Sprintf("batch node %d item %d", n.ID, k.I), w); v != nil {
+						return v
+					}
+				}
+			}
+			if n.Kind == "batch" && n.config().Conc <= 0 {
+				// sequential batch: the item after a settled one starts without delay
+				var all []simrt.Event
+				for _, e := range or.All {
+					if e.N == n.ID && e.I > 0 && isCallback(e.Kind) {
+						all = append(all, e)
+					}
+				}
+				for k := 1; k < len(all); k++ {
+					if all[k].Kind == "exec_start" && all[k].A == 1 && all[k].T != all[k-1].T {
+						return c.viol("wait-before-first-attempt", "sequential batch node %d: item %d started %dus after the previous item was settled", n.ID, all[k].I-1, (all[k].T-all[k-1].T)/1000)
+					}
+				}
+			}
+		}
+		// cancellation inside a wait: the run ends at that very instant
+		if cn := c.sc.Canceller; cn != nil && cn.Kind == "time" && len(or.Cancels) > 0 {
+			at := or.Cancels[0].T
+			sleeps := false
+			for _, e := range or.All {
+				if strings.HasSuffix(e.Kind, "_end") && e.T > at {
+					sleeps = true // something was still executing a slow callback
+				}
+			}
+			cut := false
+			for _, mr := range c.mod.Runs[i : i+1] {
+				if !mr.TimeKnown || mr.EndT > at {
+					cut = true
+				}
+			}
+			if cut && !sleeps {
+				c.out.Probes["cancel_landed_in_wait"]++
+				if or.End.T != at {
+					return c.viol("wait-not-interruptible", "the context was cancelled at %dus during a retry wait; the run returned at %dus instead of at once", at/1000, or.End.T/1000)
+				}
+				hasBatch := false
+				for _, n := range c.sc.Nodes {
+					hasBatch = hasBatch || n.Kind == "batch"
+				}
+				if !hasBatch {
+					if or.End.S2 == "nil" || or.End.S3 != "matches-ctx" {
+						return c.viol("wait-cancel-not-reported", "cancelled during a retry wait, the run returned action %q error %q (%s)", or.End.S1, or.End.S2, or.End.S3)
+					}
+				} else if or.End.S3 != "matches-ctx" {
+					// per item: the slot of every item that was waiting carries an error matching the context's
+					for _, bv := range c.batchViews() {
+						if len(bv.post) == 0 {
+							return c.viol("wait-cancel-not-reported", "cancelled during a retry wait: the run returned %q/%q without calling post", or.End.S1, or.End.S2)
+						}
+						got := splitList(bv.post[0].S3)
+						for ii, mi := range bv.mb.Items {
+							n := 0
+							for _, e := range bv.evs {
+								if e.I-1 == ii {
+									n++
+								}
+							}
+							if n > 0 && n < len(mi.Lane) && ii < len(got) && !strings.HasPrefix(got[ii], "ER(?ctx:") {
+								return c.viol("wait-cancel-not-reported", "batch item %d was waiting for its next attempt when the context was cancelled; its slot reads %q, not an error matching the context's", ii, got[ii])
+							}
+						}
+					}
+				}
 			}
 		}
 	}
